@@ -318,9 +318,12 @@ func TestVerifC11(t *testing.T) {
 	}
 	allMethods := []string{"GET", "POST", "PUT", "DELETE", "HEAD", "OPTIONS", "PATCH"}
 	type shape struct{ ctype, body string }
-	shapes := []shape{{"", ""}, {"application/json", "{}"}, {"application/x-www-form-urlencoded", "a=1"}, {"text/plain", "{}"}}
+	shapes := []shape{{"", ""}, {"application/json", "{}"}, {"application/x-www-form-urlencoded", "a=1"}, {"text/plain", "{}"},
+		// Media types that merely contain the JSON type's name.
+		{"text/plain; application/json", "{}"}, {"application/jsonp", "{}"}, {"multipart/form-data; boundary=application/json", "{}"},
+		{"x-application/json", "{}"}}
 	if !verifkit.Thorough() {
-		shapes = shapes[:3]
+		shapes = append(shapes[:3:3], shapes[4], shapes[5])
 	}
 
 	// The login call itself: wrong credential shapes must not yield a session.
